@@ -105,3 +105,83 @@ Theorem C03_hyper_roundtrip hp k km :
   (multitask_set hp = Some km -> (2 <= length hp)%nat -> multitask_get km = hp).
 Proof. exact (conj (hyper_roundtrip_radial hp k) (hyper_roundtrip_multitask hp km)). Qed.
 Print Assumptions C03_hyper_roundtrip.
+
+(* ---- LIVE kernel objects: hyperparameters assigned (accepted or rejected), read back and used, in any order, on ONE object ----
+   (Model.Hyper: radial_assign / multitask_assign follow set_hyperparameters statement by statement, including what has already been
+   assigned when HyperparameterInvalidError is raised; tied to the running classes by the op-sequence cases CLiveRadial / CLiveMulti) *)
+
+(* an assignment is rejected exactly when some entry is <= 0, NaN or infinite (valid hp = false <-> exists a Bad entry) ... *)
+Theorem C03_hyper_valid_false_iff_bad hp : valid hp = false <-> exists h, In h hp /\ Bad h.
+Proof. exact (valid_false_iff_bad hp). Qed.
+Print Assumptions C03_hyper_valid_false_iff_bad.
+
+(* ... an accepted vector reads back, and a REJECTED ASSIGNMENT LEAVES A RADIAL KERNEL UNCHANGED (every field) *)
+Theorem C03_hyper_live_radial_assignment k hp :
+  snd (radial_assign k hp) = valid hp /\
+  (valid hp = true -> radial_get (fst (radial_assign k hp)) = hp) /\
+  (valid hp = false -> fst (radial_assign k hp) = k).
+Proof. exact (radial_assign_spec k hp). Qed.
+Print Assumptions C03_hyper_live_radial_assignment.
+Theorem C03_hyper_live_rejected_leaves_radial_unchanged k hp k' : radial_assign k hp = (k', false) -> k' = k.
+Proof. exact (radial_rejected_unchanged k hp k'). Qed.
+Print Assumptions C03_hyper_live_rejected_leaves_radial_unchanged.
+
+(* for every sequence of operations on a constructed radial kernel: it reads back exactly the process variance and length scales it
+   computes with, these are admissible, and they are the last vector that was accepted *)
+Theorem C03_hyper_live_radial_history hp0 k ops : radial_set hp0 = Some k -> hp0 <> [] -> nonempty_sets ops ->
+  let k' := fst (run radial_step k ops) in
+  (r_hp k' = r_alpha k' :: r_ls k' /\ valid (r_hp k') = true) /\ radial_get k' = last_accepted hp0 ops.
+Proof. exact (radial_life_coherent hp0 k ops). Qed.
+Print Assumptions C03_hyper_live_radial_history.
+Theorem C03_hyper_live_radial_readback k ops1 ops2 :
+  nth (length ops1) (snd (run radial_step k (ops1 ++ HGet :: ops2))) (OSet false) = OGet (last_accepted (radial_get k) ops1).
+Proof. exact (radial_history_readback k ops1 ops2). Qed.
+Print Assumptions C03_hyper_live_radial_readback.
+(* every use of the kernel in a history: k(x,x) is the process variance of the last accepted vector, all entry points those of a kernel
+   freshly built from what is read back *)
+Theorem C03_hyper_live_radial_use k ops1 ops2 : RCoh k -> nonempty_sets ops1 ->
+  exists a ls, last_accepted (radial_get k) ops1 = a :: ls /\
+  nth (length ops1) (snd (run radial_step k (ops1 ++ HProbe :: ops2))) (OSet false) = OProbe a true.
+Proof. exact (radial_history_probe k ops1 ops2). Qed.
+Print Assumptions C03_hyper_live_radial_use.
+(* the decidable specification the correspondence evaluates on the implementation's own outputs holds of the model *)
+Theorem C03_hyper_live_radial_spec ops k : RCoh k -> nonempty_sets ops -> spec_outs true (radial_get k) ops (snd (run radial_step k ops)) = true.
+Proof. exact (radial_model_meets_spec ops k). Qed.
+Print Assumptions C03_hyper_live_radial_spec.
+
+(* the tensor kernel: accepted iff every entry is admissible, an accepted vector reads back; through every history it stays a kernel that
+   computes with the admissible hyperparameters it reads back (component kernels with process variance 1) ... *)
+Theorem C03_hyper_live_multitask_assignment k hp : (2 <= length hp)%nat ->
+  snd (multitask_assign k hp) = valid hp /\ (valid hp = true -> multitask_get (fst (multitask_assign k hp)) = hp).
+Proof. exact (multitask_assign_spec k hp). Qed.
+Print Assumptions C03_hyper_live_multitask_assignment.
+Theorem C03_hyper_live_multitask_history hp0 k ops : multitask_set hp0 = Some k ->
+  MCoh (fst (run multitask_step k ops)) /\ valid (multitask_get (fst (run multitask_step k ops))) = true.
+Proof. exact (multitask_life_coherent hp0 k ops). Qed.
+Print Assumptions C03_hyper_live_multitask_history.
+Theorem C03_hyper_live_multitask_spec ops k cur : MCoh k -> long_sets ops -> (cur = [] \/ cur = multitask_get k) ->
+  spec_outs false cur ops (snd (run multitask_step k ops)) = true.
+Proof. exact (multitask_model_meets_spec ops k cur). Qed.
+Print Assumptions C03_hyper_live_multitask_spec.
+(* ... a vector rejected for its process variance changes nothing ... *)
+Theorem C03_hyper_live_multitask_bad_alpha_unchanged k a rest : entry_ok a = false -> multitask_assign k (a :: rest) = (k, false).
+Proof. exact (multitask_rejected_bad_alpha_unchanged k a rest). Qed.
+Print Assumptions C03_hyper_live_multitask_bad_alpha_unchanged.
+(* ... but the FULL statement "a rejected assignment leaves the object unchanged" is FALSE for the tensor kernel as the code stands: the
+   process variance (and the physical length scales, when the task length scale is the inadmissible entry) of the rejected vector have been
+   assigned by the time the component kernel raises.  Witness replayed on the running class by the correspondence on every run:
+   [1.5, 0.5, 2, 0.25] then the rejected [3, 1, 1, 0] reads back [3, 1, 1, 0.25] - neither the old vector nor the rejected one. *)
+Theorem C03_hyper_live_multitask_rejected_unchanged_refuted :
+  exists k hp k', multitask_set [Fin (3#2); Fin (1#2); Fin 2; Fin (1#4)] = Some k /\ multitask_assign k hp = (k', false) /\
+                  multitask_get k' <> multitask_get k /\ multitask_get k' <> hp.
+Proof. exact multitask_rejected_unchanged_refuted. Qed.
+Print Assumptions C03_hyper_live_multitask_rejected_unchanged_refuted.
+
+(* a concrete history (hypotheses satisfiable): construct, reject a vector with a negative length scale, use, read back, accept another *)
+Example C03_hyper_live_example :
+  match radial_set [Fin 2; Fin (1#2)] with
+  | Some k => snd (run radial_step k [HSet [Fin 1; Fin (-1)]; HProbe; HGet; HSet [Fin 3; Fin 4]; HGet])
+              = [OSet false; OProbe (Fin 2) true; OGet [Fin 2; Fin (1#2)]; OSet true; OGet [Fin 3; Fin 4]]
+  | None => False
+  end.
+Proof. vm_compute. reflexivity. Qed.
